@@ -687,12 +687,13 @@ class BaseTaskPool:
             for task_set in self._group_meta_tasks_running.values()
             for task in task_set
         )
-        with suppress(CancelledError):
-            await gather(
-                *self._meta_tasks_cancelled,
-                *not_cancelled_meta_tasks,
-                return_exceptions=return_exceptions,
-            )
+        # A meta task cancelled before it ever ran raises `CancelledError`;
+        # that must not cut short the wait for those that are still spawning.
+        await gather(*self._meta_tasks_cancelled, return_exceptions=True)
+        await gather(
+            *not_cancelled_meta_tasks,
+            return_exceptions=return_exceptions,
+        )
         self._meta_tasks_cancelled.clear()
         self._group_meta_tasks_running.clear()
         await gather(
